@@ -26,6 +26,8 @@ of code whose correctness is visible in their shape; those are decided:
   C18.isocol   the phase-isotope adjustment unknowns form a block with one column per entry of the model's -isotopes list; every site
                that addresses the block (equation set-up, bounds, dropping phases, printing, checking) takes the offset from an index
                looped to inv_ptr->isotopes.size() (or a parameter whose callers do), never the position in the phase's own list
+  C18.rangeinit  range() clears both min_delta and max_delta before it stores the extrema of the current model (an unknown that is not in
+               the model must not keep the range of the previous one)
 Not decided: mole balance of every element within the uncertainties, the min..max ranges, which subsets the search visits
 (all outcomes of the solver).
 """
@@ -136,6 +138,7 @@ def isocol_rule(P, R):
 
 def run(P, R, tier):
     isocol_rule(P, R)
+    rangeinit_rule(P, R)
     R.undecided += ["mole balance of every element within the declared uncertainties; min..max ranges (solver output)",
                     "which subsets of phases the search visits; isotope balances"]
     R.rule("C18.sign", "one sign convention from the input word to the solver's acceptance test: precipitate <= 0, dissolve >= 0, mixing fractions >= 0", minimum=7)
@@ -356,6 +359,37 @@ def spread_rule(P, R):
                 R.violation("C18.spread", inst + ":solutions", "the declared uncertainties are not copied for every solution (loop bound `%s`)" % (T.text(inner[0][3]) if inner else "?"), line=st[1], **where)
     if n == 0:
         R.anchor_missing("C18.spread", "tidy_inverse: the loop matching rows by elt->primary was not found")
+
+
+def rangeinit_rule(P, R):
+    """"every value lies within its reported minimum..maximum range": range() computes the minimum and the maximum of every unknown of ONE
+    model into min_delta / max_delta; entries of unknowns that are not in the model are never stored, so each array has to be cleared at
+    the top of range() - otherwise a phase absent from the model is reported with the range it had in the previous model.  Both arrays
+    that range() stores into are the destination of a whole-array clear (memcpy from inv_zero / fill) before the first store."""
+    RULE = "C18.rangeinit"
+    R.rule(RULE, "range() clears min_delta and max_delta before it stores the extrema of the current model", minimum=2)
+    f = P.one("Phreeqc::range")
+    where = dict(file=f["file"], function=f["q"])
+    clears, stores = {}, {}
+    for x in T.walk(f["body"]):
+        if x[0] == "Call" and T.callee_name(x) in ("memcpy", "memset", "fill", "assign") and x[4]:
+            for y in T.walk(x[4][0]):
+                if y[0] == "Member" and y[2] in ("Phreeqc::min_delta", "Phreeqc::max_delta"):
+                    clears.setdefault(y[2].split("::")[-1], []).append(x[1])
+        if x[0] == "Bin" and x[2] == "=":
+            for y in T.walk(x[3]):
+                if y[0] == "Member" and y[2] in ("Phreeqc::min_delta", "Phreeqc::max_delta"):
+                    stores.setdefault(y[2].split("::")[-1], []).append(x[1])
+    for arr in ("min_delta", "max_delta"):
+        if arr not in stores:
+            R.anchor_missing(RULE, "range(): no store into %s found" % arr)
+            continue
+        if arr in clears and min(clears[arr]) < min(stores[arr]):
+            R.ok(RULE, arr, "cleared at line %d, first store at line %d" % (min(clears[arr]), min(stores[arr])))
+        else:
+            R.violation(RULE, arr, "range() stores into %s (line %d) without clearing it first: an unknown that is not part of the current model keeps the %s of the previous "
+                        "model, e.g. a phase left out is reported as transfer 0 with a non-zero range" % (arr, min(stores[arr]), "maximum" if arr.startswith("max") else "minimum"),
+                        line=min(stores[arr]), **where)
 
 
 def init_rule(P, R):
